@@ -1,19 +1,25 @@
 #!/bin/bash
-# Re-run every kept seeded change against the current checks: apply to /repo, run the property's
-# quick check (evidence redirected), revert.  usage: tools/reseed.sh [dir...]   (default: all)
+# Re-run every kept seeded change against the current checks WITHOUT touching /repo: the change is
+# applied in a scratch worktree (created if missing, at /repo's HEAD) and the property's quick check
+# runs against that worktree (-repo).  usage: tools/reseed.sh [dir...]   (default: all)
 set -u
 cd /verif
+wt=${RESEED_WT:-/tmp/wt/reseed}
 export VERIF_EVIDENCE_DIR=/tmp/seed_ev; mkdir -p /tmp/seed_ev
+[ -d $wt ] || git -C /repo worktree add -q --detach $wt HEAD
 dirs=("$@"); [ ${#dirs[@]} -eq 0 ] && dirs=($(ls seeded | grep '^C'))
 for d in "${dirs[@]}"; do
   prop=$(python3 -c "import json;print(json.load(open('seeded/$d/meta.json'))['property'])")
-  git -C /repo checkout -q -- . 
-  if ! git -C /repo apply /verif/seeded/$d/patch.diff 2>/dev/null; then echo "$d: PATCH DOES NOT APPLY"; continue; fi
-  out=$(./bin/check $prop --tier quick 2>&1)
-  git -C /repo checkout -q -- .
+  git -C $wt checkout -q -- . ; git -C $wt clean -fdq; git -C $wt checkout -q --detach $(git -C /repo rev-parse HEAD)
+  if ! git -C $wt apply /verif/seeded/$d/patch.diff 2>/dev/null; then
+    if ! git -C $wt apply --3way /verif/seeded/$d/patch.diff >/dev/null 2>&1; then echo "$d: PATCH DOES NOT APPLY"; git -C $wt checkout -q --force HEAD -- . ; git -C $wt reset -q; continue; fi
+    git -C $wt reset -q
+  fi
+  if ! (cd $wt && GOFLAGS=-mod=mod GOPROXY=off go build ./... ) >/dev/null 2>&1; then echo "$d: DOES NOT BUILD"; continue; fi
+  out=$(./bin/check $prop --tier quick -repo $wt 2>&1)
   n=$(echo "$out" | grep -c '^VIOLATION')
   u=$(echo "$out" | grep -c '^UNCONFIRMED')
   echo "$d: property=$prop violations=$n unconfirmed=$u $(echo "$out" | grep -m1 'harness=' | cut -c1-120)"
-  # replays written for a seeded change are not evidence about the unchanged tree
   git status --short replays | awk '{print $2}' | xargs -r rm -rf
 done
+git -C $wt checkout -q -- .
